@@ -878,7 +878,9 @@ class Oracle(stateful.Stateful):
 
 
 def _maybe_infer_direction_from_objective(objective, metric_name):
-    if isinstance(objective, obj_module.Objective):
+    if isinstance(objective, obj_module.MultiObjective):
+        objective = [objective] + list(objective.objectives)
+    elif isinstance(objective, obj_module.Objective):
         objective = [objective]
     return next(
         (obj.direction for obj in objective if obj.name == metric_name), None
